@@ -56,7 +56,7 @@ fn build(chain: &[Link], bottom: Bottom, fail: Leaf, wrap_caught: bool) -> (Vec<
     build_with_history(chain, bottom, fail, wrap_caught, None)
 }
 
-const HISTORIES: usize = 6;
+const HISTORIES: usize = 7;
 const WRAP_FINALLY: usize = 100;
 
 /// an exception that was raised and completely handled before the failing statement runs
@@ -67,6 +67,12 @@ fn history(kind: usize) -> Vec<Stmt> {
         1 => vec![st(StmtKind::Try(vec![expr_stmt(call(var("thr1"), vec![]))], catch(62), None))],
         2 => vec![st(StmtKind::Try(vec![expr_stmt(index(Expr::VecLit(vec![]), num(0.0)))], catch(63), None))],
         3 => vec![st(StmtKind::Try(vec![st(StmtKind::Try(vec![st(StmtKind::Throw(s("handled after finally")))], None, Some(vec![pad(64)])))], catch(65), None))],
+        // thrown by a function of another module and caught here: what follows in this frame - names
+        // looked up, functions made - still belongs to this frame's module
+        6 => vec![block(vec![
+            st(StmtKind::Import("hmod".into(), Some("hm6".into()))),
+            st(StmtKind::Try(vec![expr_stmt(invoke(var("hm6"), "boom", vec![]))], catch(68), None)),
+        ])],
         5 => vec![
             // another fiber handled an exception in a callee-thrown form and ran to its end
             var_stmt("hg", invoke(var("Fiber"), "new", vec![lambda_block(&[], vec![st(StmtKind::Try(vec![expr_stmt(call(var("thr1"), vec![]))], catch(69), None))])])),
@@ -183,6 +189,9 @@ fn build_with_history(chain: &[Link], bottom: Bottom, fail: Leaf, wrap_caught: b
         main.extend(action);
     }
     main.push(print_stmt(s("not reached when uncaught")));
+    if matches!(hist, Some((6, _))) {
+        modules.insert("hmod".to_string(), ModuleSource { program: Some(vec![pad(90), fn_stmt(func("boom", &[], vec![pad(91), st(StmtKind::Throw(s("handled, from another module")))]))]), compile_error: false });
+    }
     (main, modules)
 }
 
@@ -584,7 +593,7 @@ pub fn run(ctx: &Ctx) -> Report {
     mcheck::fill_report(
         &mut report,
         &stats,
-        "R: every call chain of depth 0-3/4 over link kinds {function, method, static method, lambda, constructor, map callback, reduce callback, fiber body} with the failing statement (12 kinds: throws of 4 value kinds, 6 failing built-ins, throwing callees) at the bottom, in place, inside a module function or as a module body; one statement per line with padding so every line differs. Uncaught variant: class, text (where the model defines it), error kind and the full trace (one entry per active call, innermost first; library frames by name only) must equal M-eval's; caught variant: the handler sees the same class. The same with an earlier, completely handled exception (6 shapes: thrown and caught in place, thrown by a callee, raised by a built-in, caught after passing a finally block, caught in a loop, handled in another fiber that ran to its end) placed in each active frame of every chain up to depth 2/3 before the failing statement. The same with the call or failing statement at each position wrapped in one or two nested try/finally statements, so that the uncaught error passes through finally blocks (the report lists the calls still active when it is made, each with the line of the statement it was executing when the error was raised). Plus caught==uncaught on the implementation for 26 failing statements including host natives of every ErrorKind, compile-error lines for a stray token before every statement, and the same for a module that does not compile: every attempt to import it (seven placements in one program, then two more programs on the same interpreter) reports ImportError with the module's name, the line and the token; a missing module likewise. Plus the 240 programs of C08's family `recursion_from_a_finally_block` (one function active twice, the outer activation in its finally block with an outcome waiting): class, message and trace of the uncaught variants. non-trivial = a trace of at least two entries, or output.",
+        "R: every call chain of depth 0-3/4 over link kinds {function, method, static method, lambda, constructor, map callback, reduce callback, fiber body} with the failing statement (12 kinds: throws of 4 value kinds, 6 failing built-ins, throwing callees) at the bottom, in place, inside a module function or as a module body; one statement per line with padding so every line differs. Uncaught variant: class, text (where the model defines it), error kind and the full trace (one entry per active call, innermost first; library frames by name only) must equal M-eval's; caught variant: the handler sees the same class. The same with an earlier, completely handled exception (7 shapes: thrown and caught in place, thrown by a callee, thrown by a function of another module, raised by a built-in, caught after passing a finally block, caught in a loop, handled in another fiber that ran to its end) placed in each active frame of every chain up to depth 2/3 before the failing statement. The same with the call or failing statement at each position wrapped in one or two nested try/finally statements, so that the uncaught error passes through finally blocks (the report lists the calls still active when it is made, each with the line of the statement it was executing when the error was raised). Plus caught==uncaught on the implementation for 26 failing statements including host natives of every ErrorKind, compile-error lines for a stray token before every statement, and the same for a module that does not compile: every attempt to import it (seven placements in one program, then two more programs on the same interpreter) reports ImportError with the module's name, the line and the token; a missing module likewise. Plus the 240 programs of C08's family `recursion_from_a_finally_block` (one function active twice, the outer activation in its finally block with an outcome waiting): class, message and trace of the uncaught variants. non-trivial = a trace of at least two entries, or output.",
         json!({"chain_depth": if thorough { 4 } else { 3 }, "link_kinds": LINKS.len(), "failing_statements": FAILS.len()}),
     );
     let (n_ceq, _bad) = caught_equals_uncaught(ctx, &mut report);
